@@ -184,6 +184,20 @@ func (c *Core) do(ctx context.Context, id Ident, a M) (any, error) {
 		}
 		srvHandles.Store(fmt.Sprintf("%s/raw/%d", c.Instance, Int(a, "id")), ln)
 		return M{"addr": ln.Addr().String()}, nil
+	case "grpc-accept-twice":
+		// the same id announced twice in a row (both listeners closed again at once); nobody dials it
+		b := c.GRPC()
+		if b == nil {
+			return nil, errors.New("no grpc broker")
+		}
+		for i := 0; i < 2; i++ {
+			ln, err := b.Accept(uint32(Int(a, "id")))
+			if err != nil {
+				return nil, err
+			}
+			ln.Close()
+		}
+		return M{}, nil
 	case "grpc-accept-storm":
 		// plugin code that keeps announcing brokered servers from a background worker (one every 5 ms, never
 		// dialled) for as long as the process lives; vplugin stops the worker shortly after Serve returned
